@@ -184,7 +184,9 @@ func (c *rankCache) Add(id uint64, n uint64) {
 func (c *rankCache) BulkAdd(id uint64, n uint64) {
 	c.mu.Lock()
 	defer c.mu.Unlock()
-	if n < c.thresholdValue {
+	// As in Add: a count of 0 clears the cached value and must not be
+	// dropped for being below the threshold.
+	if n < c.thresholdValue && n > 0 {
 		return
 	}
 
